@@ -79,7 +79,16 @@ ShiftPairs(mc) ==
   {Pair(mc, "shift", mc.shifts[k], 1, 1, 0,
         [i \in 1..Len(mc.inputs) |-> IF i \in Straddles(mc, mc.shifts[k]) THEN 1 ELSE 0]) : k \in 1..Len(mc.shifts)}
 
-AllPairs == UNION {EqualPairs(Mechs[i]) \cup DifferPairs(Mechs[i]) \cup ShiftPairs(Mechs[i]) : i \in 1..Len(Mechs)}
+(* left open by the statement's list: second differs from first only in the VALUE of a forwarded   *)
+(* request header (it reaches the remote system but is not among subject, payload, values,         *)
+(* credential).  No demand; whether the result is reused across such requests is only recorded.    *)
+OpenPairs(mc) ==
+  IF mc.m \in {"generic_contextualizer"}
+  THEN {Pair(mc, "open", "fwd_header_value", 1, 1, 0, Zeros(Len(mc.inputs)))}
+  ELSE {}
+
+AllPairs == UNION {EqualPairs(Mechs[i]) \cup DifferPairs(Mechs[i]) \cup ShiftPairs(Mechs[i]) \cup OpenPairs(Mechs[i]) :
+                     i \in 1..Len(Mechs)}
 
 (* sanity: every shift changes at least one component, every differ exactly one *)
 ASSUME \A p \in AllPairs :
